@@ -198,6 +198,7 @@ class World:
 
     # -- building ---------------------------------------------------------
     def _build(self):
+        specs.reset_term_cache()
         spec = self.spec
         self.plan = plan = uberjob.Plan()
         self.registry = uberjob.Registry() if self.use_registry else None
